@@ -9,10 +9,14 @@ use vcore::runner::*;
 mod api;
 mod c01;
 mod c02;
+mod c15;
 mod c16;
 mod misc;
 mod parsers;
 mod uri;
+
+#[global_allocator]
+static ALLOC: c15::Counting = c15::Counting;
 
 pub struct CheckDef {
     pub id: &'static str,
@@ -35,6 +39,7 @@ fn checks() -> Vec<CheckDef> {
         CheckDef { id: "C10", level: "exploration", run: api::run_c10, replay: api::replay_c10 },
         CheckDef { id: "C13", level: "exploration", run: uri::run_c13, replay: uri::replay_c13 },
         CheckDef { id: "C14", level: "exploration", run: uri::run_c14, replay: uri::replay_c14 },
+        CheckDef { id: "C15", level: "exploration", run: c15::run, replay: c15::replay },
         CheckDef { id: "C16", level: "exploration", run: c16::run, replay: c16::replay },
         CheckDef { id: "C17", level: "exploration", run: misc::run_c17, replay: misc::replay_c17 },
         CheckDef { id: "C19", level: "exploration", run: api::run_c19, replay: api::replay_c19 },
@@ -67,7 +72,11 @@ fn main() {
         "quick" | "thorough" => {
             let tier = if args[2] == "quick" { Tier::Quick } else { Tier::Thorough };
             let ctx = Ctx::new(id, tier, def.level);
-            (def.run)(&ctx);
+            if let Err(p) = catch(|| (def.run)(&ctx)) {
+                // a bug in the harness itself: never reported as a violation
+                println!("INFRA: the harness panicked: {p}");
+                ctx.inconclusive(&format!("harness panic: {p}"));
+            }
             std::process::exit(ctx.finish());
         }
         "--replay" => {
